@@ -22,6 +22,10 @@ grid_size_x; 3-D alternately y > x and z > x); after its pool entries every shar
 dx with one earlier object and N with another (3-D variant B: N == dim), constructed with positional arguments and the
 documented defaults, and then drives the FIRST communicator of the process again (module-level caches keyed incompletely).
 
+Self-test of the added dimensions: a module-level cache of the 2-D Eulerian->Lagrangian interpolation closure keyed by
+(num_lag_nodes, kernel width, n_components) but not dx (patch) -> VIOLATION interp-constant!=constant, interp-coordinate!=...,
+interp-affine!=..., every witness on the 'sibling' object (variant A: N = 7 at dx = 2pi/48, then at dx = 1/37).
+
 Tolerances (noise floors; ``kap = |X|/dx + 2`` is the amplification of the float64 cancellation in
 ``(index+j)*dx + shift - X`` -- invisible in float32 -- and ``e = eps_t + eps64*kap``):
   sign      w >= -16*eps_t*max w          (DESIGN says 4: the Peskin outer branch 5-2r-sqrt(..) is +-1.5 eps near
